@@ -2,7 +2,9 @@
    Three parts: (1) the limiter level: settings -> CreateRateLimiter -> token bucket;
    (2) the operator's task flow (queues, handler, combining, retry of failed runs) without
    the limiter; (3) the operator level: the queue workers of (2) with the limiter call of
-   taskHandleHookRun in front of every HookRun task, one limiter (1) per hook.
+   taskHandleHookRun in front of every HookRun task, one limiter (1) per hook;
+   (4) at the end of the file, the worker of ONE queue shared by several hooks with the instants
+   of queueing explicit ([serve]): when the reservation is made relative to queueing and starting.
 
    Go anchors of part 1 (read side by side):
      pkg/hook/config/config_v1.go  CheckAndConvertSettings      -> [check_and_convert_settings]
@@ -828,4 +830,83 @@ Fixpoint starts_all (log : list levent) : list (N * Z) :=
   | [] => []
   | LStart h _ t :: r => (h, t) :: starts_all r
   | _ :: r => starts_all r
+  end.
+
+(* ======================================================================================
+   One queue shared by several hooks: queueing, handler entry, reservation, start.
+
+   Go anchors:
+     pkg/shell-operator/operator.go  the events handlers create every HookRun task with
+         WithQueuedAt(time.Now())  (lines 155, 184; Synchronization tasks: 511; a task whose
+         run failed gets a new QueuedAt: 620)                        -> [qt_queued]
+     pkg/task/queue/task_queue.go    ONE worker per queue: the handler of the next task is
+         entered only after the handler of the task before it has returned (and after the
+         back-off delay when that run failed)                        -> [free], [qt_end]
+     pkg/shell-operator/operator.go  taskHandleHookRun: the FIRST statement is
+         taskHook.RateLimitWait(context.Background()) = RateLimiter.Wait = reserveN(time.Now(), 1)
+         and a sleep until timeToAct: the limiter is asked with the instant at which the
+         HANDLER IS ENTERED (time.Now() inside Wait), not with task.GetQueuedAt() - the latter
+         is only read afterwards, for the task_wait_in_queue metric  -> [sr_entered], [reserve]
+     pkg/hook/hook.go                one limiter per hook, whatever other hooks' tasks sit in
+         the same queue                                              -> [limiters]
+
+   [serve lims free ts]: the worker of one queue is free from instant [free] on and handles
+   the HookRun invocations [ts] in queue order (tasks of several hooks interleaved; a combined
+   task is one invocation; the retry of a failed run is another invocation).  For each of
+   them: the instant its task was queued, and the instant at which the handler gives the queue
+   back ([qt_end]: the hook's execution ended - a slow hook -, plus the back-off delay when it
+   failed; an instant before the start means "at once").  Between queueing and handler entry
+   the task just sits in the queue: nothing is reserved for it.  This is the task-flow model's
+   worker ([advance_q_lim], [resume_q]) for one queue with the instants of queueing made
+   explicit; what is combined, skipped or retried is decided there, not here. *)
+Record qtask := mkQT {
+  qt_hook : N;
+  qt_queued : Z;       (* task.GetQueuedAt() *)
+  qt_end : Z           (* the handler returns (and the back-off, if any, is over) *)
+}.
+
+Record srun := mkSR {
+  sr_hook : N;
+  sr_queued : Z;
+  sr_entered : Z;          (* taskHandleHookRun entered: the instant the limiter is asked with *)
+  sr_start : option Z      (* RateLimitWait returned nil at this instant: the execution starts;
+                              None: refused (Repeat for ever: the queue is stuck behind the task) *)
+}.
+
+Fixpoint serve (lims : limiters) (free : Z) (ts : list qtask) : list srun :=
+  match ts with
+  | [] => []
+  | t :: r =>
+      (* the worker takes the task when it is free and the task is there *)
+      let entered := Z.max free (qt_queued t) in
+      (* err := taskHook.RateLimitWait(context.Background()) *)
+      let (b', a) := reserve (lims (qt_hook t)) entered in
+      match a with
+      | Some act =>
+          mkSR (qt_hook t) (qt_queued t) entered (Some act)
+          :: serve (set_lim lims (qt_hook t) b') (Z.max act (qt_end t)) r
+      | None => [mkSR (qt_hook t) (qt_queued t) entered None]
+      end
+  end.
+
+(* projections *)
+Definition runs_of (h : N) (rs : list srun) : list srun := filter (fun r => N.eqb (sr_hook r) h) rs.
+Definition sr_reqs (h : N) (rs : list srun) : list Z := map sr_entered (runs_of h rs).
+Definition sr_acts (h : N) (rs : list srun) : list (option Z) := map sr_start (runs_of h rs).
+Fixpoint sr_all (rs : list srun) : list (N * Z) :=
+  match rs with
+  | [] => []
+  | r :: rest => match sr_start r with
+                 | Some s => (sr_hook r, s) :: sr_all rest
+                 | None => sr_all rest
+                 end
+  end.
+(* hooks that were throttled: a RateLimitWait that did not return at once *)
+Fixpoint sr_throttled (rs : list srun) : list N :=
+  match rs with
+  | [] => []
+  | r :: rest => match sr_start r with
+                 | Some s => if s =? sr_entered r then sr_throttled rest else sr_hook r :: sr_throttled rest
+                 | None => sr_hook r :: sr_throttled rest
+                 end
   end.
